@@ -28,7 +28,7 @@ fn apply_on(
 ) -> ImplRes {
     match op {
         Op::Match(q) => {
-            match rec.with_budget(CALL_BUDGET, || level.match_order(*q, oid(TAKER), generator)) {
+            match rec.with_budget(CALL_BUDGET + 200_000, || level.match_order(*q, oid(TAKER), generator)) {
                 Ok(mr) => ImplRes::Matched(match_obs(&mr)),
                 Err(BudgetOrPanic::Budget) => ImplRes::NoReturn,
                 Err(BudgetOrPanic::Panic(m)) => ImplRes::Panicked(m),
@@ -36,7 +36,7 @@ fn apply_on(
         }
         Op::Upd(k, id) => {
             let u = cfg.update_of(*k, *id);
-            match rec.with_budget(CALL_BUDGET, || level.update_order(u)) {
+            match rec.with_budget(CALL_BUDGET + 200_000, || level.update_order(u)) {
                 Ok(r) => ImplRes::Updated(upd_obs(&r)),
                 Err(BudgetOrPanic::Budget) => ImplRes::NoReturn,
                 Err(BudgetOrPanic::Panic(m)) => ImplRes::Panicked(m),
